@@ -1441,3 +1441,78 @@ m("C16", "refactor-cook-check-local", TP,
   '''        if self.auto_reload:
             mtime = self.mtime()
             if mtime != self._v_last_read:''', expect="silent")
+
+# ---- C19 -------------------------------------------------------------------
+m("C19", "strict-changes-escaping", C,
+  '''        if not char_escape:
+            return self._convert_structure(target, char_escape)
+''',
+  '''        if not char_escape or getattr(self, "strict", True) is False:
+            return self._convert_structure(target, char_escape)
+''')
+m("C19", "strict-read-in-compiler", C,
+  '''        assignment = self._engine(node.expression, store("__value"))
+
+        if len(node.names) != 1:''',
+  '''        assignment = self._engine(node.expression, store("__value"))
+        if not self._engine.strict:
+            assignment = list(assignment)
+
+        if len(node.names) != 1:''')
+m("C19", "nonstrict-swallows-error", C,
+  '''            stmts += [
+                TokenRef(exc.token),
+                ast.Raise(exc=load("__exc"))
+            ]''',
+  '''            stmts += [
+                TokenRef(exc.token),
+            ]''')
+m("C19", "nonstrict-raises-other-error", C,
+  '''                ast.Raise(exc=load("__exc"))
+            ]''',
+  '''                ast.Raise(exc=load("RuntimeError"))
+            ]''')
+m("C19", "nonstrict-no-tokenref", C,
+  '''            stmts += [
+                TokenRef(exc.token),
+                ast.Raise(exc=load("__exc"))
+            ]''',
+  '''            stmts += [
+                ast.Raise(exc=load("__exc"))
+            ]''')
+m("C19", "strict-not-passed", TP,
+  "            builtins=builtins,\n            strict=self.strict\n        )",
+  "            builtins=builtins,\n        )")
+m("C19", "strict-not-hashed", ZT,
+  "            'strict',\n            'mode',", "            'mode',")
+m("C19", "handler-catches-all-when-nonstrict", C,
+  '''        except ExpressionError as exc:
+            if self.strict:
+                raise
+''',
+  '''        except Exception as exc:
+            if self.strict:
+                raise
+''')
+m("C19", "emitter-bypasses-transformer", C,
+  '''    def visit_Alias(self, node):
+        assert len(node.names) == 1
+        name = node.names[0]
+        target = self._aliases[-1][name] = identifier(name, id(node))
+        return self._engine(node.expression, target)''',
+  '''    def visit_Alias(self, node):
+        assert len(node.names) == 1
+        name = node.names[0]
+        target = self._aliases[-1][name] = identifier(name, id(node))
+        return self._engine._translate(node.expression, target)''')
+m("C19", "refactor-strict-local", C,
+  '''        except ExpressionError as exc:
+            if self.strict:
+                raise
+
+            p = pickle.dumps(exc, -1)''',
+  '''        except ExpressionError as exc:
+            if self.strict:
+                raise
+
+            p = pickle.dumps(exc, -1)  # deferred''', expect="silent")
